@@ -44,7 +44,7 @@ ASSUMPTIONS = [
     "boundaries; C calls are atomic (GIL)",
     "histories, schedules and fault points are sampled, not enumerated",
 ]
-SUB_BATCHES = ["none", "none", "io", "eio", "abort", "abort", "cache_clear"]
+SUB_BATCHES = ["none", "none", "io", "eio", "abort", "abort", "cache_clear", "long"]
 
 
 # ----------------------------------------------------------------------------------------------
@@ -109,10 +109,13 @@ def make_plan(seed: int, tier: str, index: int) -> dict[str, Any]:
             ])
         access.append(a)
     n_clients = p.choice([1, 2, 2, 3, 3, 4])
+    if sub == "long":
+        # long histories without retained results: object ids get reused, memo tables fill up
+        n_clients = p.choice([1, 1, 2])
     clients = []
     for ci in range(n_clients):
         ops = []
-        for _ in range(p.randint(1, 6)):
+        for _ in range(p.randint(1, 6) if sub != "long" else p.randint(20, 60) // n_clients):
             c = p.choice(corpus)
             op: dict[str, Any] = {"op": "parse", "text": c["id"], **access[c["id"]]}
             op["select"] = _gen_selection(p, c["headers"]) if c["kind"] == "ok" else None
@@ -157,6 +160,8 @@ def make_plan(seed: int, tier: str, index: int) -> dict[str, Any]:
         else:
             schedule = {"mode": "pct", "seed": s.getrandbits(32), "d": s.choice([1, 2, 3]),
                         "est_steps": max(200, total_ops * s.choice([500, 1500, 3000]))}
+    if sub == "long":
+        knobs["retain_results"] = False
     plan: dict[str, Any] = {"property": PROP, "seed": seed, "sub_batch": sub, "corpus": corpus,
                             "clients": clients, "schedule": schedule, "knobs": knobs}
     if index % FRESH_EVERY[tier] == 0:
@@ -249,7 +254,8 @@ def execute(plan: dict[str, Any]) -> dict[str, Any]:
 
     def config_name() -> str:
         return {"none": "history-only" if plan["schedule"].get("mode") == "sequential" else "scheduled",
-                "io": "io", "eio": "eio", "abort": "abort", "cache_clear": "cache-clear"}[sub]
+                "io": "io", "eio": "eio", "abort": "abort", "cache_clear": "cache-clear",
+                "long": "long-history"}[sub]
 
     def vio(symptom: str, detail: str) -> None:
         violations.append({"sig": f"C17/{symptom}/{config_name()}", "detail": detail})
@@ -291,6 +297,7 @@ def execute(plan: dict[str, Any]) -> dict[str, Any]:
     sched = Scheduler(plan["schedule"], n_clients, env.PKG_DIR,
                       preempt_lines=not env.package_uses_locks_or_threads())
     first_result: dict[str, Any] = {}
+    retain = (plan.get("knobs") or {}).get("retain_results", True)
     clear_at = {tuple(x) for x in (plan.get("knobs") or {}).get("cache_clear", [])}
     caches = _find_caches() if clear_at else []
     n_ops = 0
@@ -373,7 +380,7 @@ def execute(plan: dict[str, Any]) -> dict[str, Any]:
                         vio(sym, f"client {ci} op {k} text {op['text']} ({corpus[op['text']]['kind']}, "
                                  f"select={op.get('select')}): got {_short(out)} but a fresh-process "
                                  f"parse gives {_short(ref)}")
-                    elif chart is not None:
+                    elif chart is not None and retain:
                         prev = first_result.setdefault(key, chart)
                         if prev is not chart:
                             try:
